@@ -181,9 +181,31 @@ def resolve_loop_exits(F):
                     orig = mir.provenance(f, du, {"l": dl, "p": []}) if dl is not None else []
                     if any(o.kind == "call" and o.callee.startswith("tx3_resolver::eval_pass") for o in orig):
                         conv = True
-            out.append(("converged" if conv else "unconverged", line,
-                        "leaves the loop on eval_pass() == None" if conv else "leaves the loop towards `Ok(..)` without eval_pass having reported convergence"))
+            how = _exit_condition(f, du, u)
+            out.append(("converged" if conv else "unconverged: " + how, line,
+                        "leaves the loop on eval_pass() == None" if conv else "leaves the loop towards `Ok(..)` (%s) without eval_pass having reported convergence" % how))
     return f, out
+
+
+def _exit_condition(f, du, u):
+    """short structural description of the branch in block u that leaves the loop (part of the finding's identity: a different
+    way of giving up is a different finding)"""
+    t = f["blocks"][u]["t"]
+    if t["k"] == "switch":
+        pl = mir.op_place(t["discr"])
+        if pl is not None:
+            for d in du.defs.get(pl["l"], []):
+                if d[0] != "call":
+                    rv = d[3]["rv"]
+                    if rv["k"] == "binop":
+                        return "on a `%s` comparison of a round counter with the bound" % rv["op"]
+                    if rv["k"] == "discr":
+                        src = mir.provenance(f, du, {"l": rv["pl"]["l"], "p": []})
+                        for o in src:
+                            if o.kind == "call":
+                                return "when `%s` yields %s" % (o.callee.split("::")[-1], "None" if rv.get("adt", "").endswith("Option") else "another variant")
+                        return "on a discriminant test"
+    return "unconditionally"
 
 
 def _switch_scrutinee(f, bb):
